@@ -98,6 +98,23 @@ func e2eUp4FaultWorker(args []string) error {
 		return &e2e.P4FaultPlan{K: k, Mode: mode, Upd: rng.Intn(3), Code: faultCodes[rng.Intn(len(faultCodes))]}
 	}
 
+	// a live session holds counter cell 0 - the cell a release of a PDR's still unset (zero) counter ID would free:
+	// sessions with many PDRs are established (cells are handed out in no particular order) and deleted again until one has it
+	g.MinFlows = 8
+
+	for i := 0; i < 200 && !w.Died && !w.P4CounterUsed(0); i++ {
+		g.Reseed(rng.Int63())
+
+		if g.Establish("p2") && !w.P4CounterUsed(0) {
+			g.Delete(g.Last())
+		}
+	}
+
+	g.MinFlows = 0
+	if w.P4CounterUsed(0) {
+		sum.Stats["cell0_held"]++
+	}
+
 	// background sessions: they hold counter cells, meter cells, tunnel peers and applications
 	g.ForceSessQer, g.OneFlow = p.Crowded, p.Crowded
 
